@@ -293,6 +293,15 @@ REAL_TEMPLATES = [
 ]
 
 
+# functions, and of_nat of a bound variable (outside the reference encoder: judged by the recorded expectation)
+FUN_TEMPLATES = [
+    ("f = g --> false", False), ("f = g --> f n = g n", None), ("f n = f n", True),
+    ("(!x::nat. (x = 0 --> of_nat x = (0::real)) & (x = 1 --> of_nat x = (1::real))) --> false", False),
+    ("!x::nat. of_nat x >= (0::real)", True), ("of_nat n >= (0::real)", True), ("(!k::nat. f k = g k) --> f n = g n", True),
+    ("(!k::nat. f k <= g k) --> f n < g n", False),
+]
+
+
 def rand_fragment_goal(r, depth=3):
     """Random closed-form text of a fragment goal over nat m n k and int i j; bound names are unique."""
     counter = itertools.count()
@@ -485,7 +494,7 @@ def run_check(tier, seed):
     run = Run(PROP, 'proof', tier, seed)
     proof_stage(run, PROP)
     r = run.rng
-    scale = 1 if tier == 'quick' else 8
+    scale = 1 if tier == 'quick' else 3
     context.set_context('int', vars={'m': 'nat', 'n': 'nat', 'k': 'nat', 'i': 'int', 'j': 'int'})
 
     # ======== (A) correspondence of the translation on the fragment + (B) exploration of solve()
@@ -541,8 +550,8 @@ def run_check(tier, seed):
 
     # reals and friends: quantifier-free, exact counter-model search
     try:
-        context.set_context('real', vars={'x': 'real', 'y': 'real', 'z': 'real', 'm': 'nat', 'n': 'nat'})
-        for text, expected in REAL_TEMPLATES + [("m - n + n >= m", True), ("m - n + n = m", False), ("max m n - min m n = abs (m - n)", False)]:
+        context.set_context('real', vars={'x': 'real', 'y': 'real', 'z': 'real', 'm': 'nat', 'n': 'nat', 'f': 'nat => nat', 'g': 'nat => nat'})
+        for text, expected in REAL_TEMPLATES + FUN_TEMPLATES + [("m - n + n >= m", True), ("m - n + n = m", False), ("max m n - min m n = abs (m - n)", False)]:
             try:
                 goal = parser.parse_term(text)
                 solved = z3wrapper.solve(goal)
@@ -555,7 +564,7 @@ def run_check(tier, seed):
             if solved:
                 cm = counter_model_qf(goal, r)
                 valid, model = ref_decide(goal)
-                if cm is not None or valid is False:
+                if cm is not None or valid is False or expected is False:
                     run.violation('property', 'Z3 step accepts a goal that is false under the HOL meaning (x / 0 = 0, truncated subtraction): %s' % text,
                                   dict(goal=text, counter_model=cm or model), key='C06:z3-accepts-invalid:real')
             run.count(('z3real', text), nontrivial=solved)
